@@ -56,6 +56,10 @@ def _run(repo, rep):
     f = repo.func('geodepy.geodesy', 'vincinv')
     rep.analysed(f)
     w = where(f, f.node)
+    # first of all (independent of whether the formulas below can be formed): the four angle arguments go through angular_typecheck
+    for p in f.params[:4]:
+        common.angle_param_rule(rep, f, p.name)
+    rep.floor('R-UNITS', 4, 'four angle arguments')
     tr = ThreadRule(repo, rep)
     tr.check_const(f)
     tr.check_function(f)       # helpers that take an ellipsoid must receive the caller's
@@ -231,9 +235,6 @@ def _run(repo, rep):
                                  expected='d >= %d' % need[i], actual='d = %s' % digits)
                 else:
                     rep.holds('R-ROUND', key, '%s:%d' % (f.module.relpath, line), '%s rounded to %d decimals' % (names[i], digits))
-    for p in f.params[:4]:
-        common.angle_param_rule(rep, f, p.name)
-    rep.floor('R-UNITS', 4, 'four angle arguments')
 
 
 def controls(repo):
